@@ -18,7 +18,7 @@ from lib import vf
 CFG = """SPECIFICATION %(spec)s
 CONSTANTS
   KindOrder <- %(ko)s
-  DurOrder <- MCDurOrder
+  DurOrder <- %(do)s
   Dur <- MCDur
   TunnelKinds <- MCTunnelKinds
   GrpcKinds <- MCGrpcKinds
@@ -38,7 +38,7 @@ WAIT_TICKS = 4
 
 
 def cfg(**k):
-    d = dict(spec="Spec", ms=2, mi=2, st=1, gid="FALSE", ko="MCKindOrder")
+    d = dict(spec="Spec", ms=2, mi=2, st=1, gid="FALSE", ko="MCKindOrder", do="MCDurOrder")
     d.update(k)
     return CFG % d
 
